@@ -79,6 +79,11 @@ func (wrr *WeightedRoundRobinStrategy) RemoveBackend(backend *Backend) {
 			// Remove the backend by swapping with the last element and truncating.
 			wrr.backends[i] = wrr.backends[len(wrr.backends)-1]
 			wrr.backends = wrr.backends[:len(wrr.backends)-1]
+			// The survivors start level again: their credits were debts and claims against the member that
+			// just left, and would otherwise starve whoever was picked last for a long time.
+			for _, rest := range wrr.backends {
+				rest.currentWeight = 0
+			}
 			return
 		}
 	}
